@@ -228,6 +228,27 @@ def body(prop, args, seed, t0):
             return 2
     # --- T1 end
 
+    # --- T6: the translated definitions of harness/tables_t6.py (sort keys, `translate_expression` family, `reduction`: C19; the
+    # `dicke_state` loop and the `zero_state` guard: C12) are run in the driver (tag "TRT6") and compared with the Python functions
+    # they came from (stand-in symbols / dialects on both sides); the prelude is compared with CPython for C19 as well
+    from harness import translated_check_t6 as _t6
+    if prop in _t6.PROP_OF.values() and driver.available() and (build_ok or common.lake_build(["oqdriver"])[0]):
+        # (a driver that does not build now would be a stale binary of an earlier run: nothing is compared then)
+        bad1 = []
+        if "prelude_vs_cpython" not in tie:
+            from harness import prelude_check as _pc
+            tie["prelude_vs_cpython"], bad1 = _pc.run(seed)
+        n6, bad6, untr6, listed6 = _t6.run(seed, only=prop)
+        tie["translated_t6_vs_python_function"] = n6
+        tie["translated_functions"] = list(tie.get("translated_functions", [])) + listed6
+        tie["untranslatable_now"] = list(tie.get("untranslatable_now", [])) + untr6
+        if bad1 or bad6:
+            for b in (bad1 + bad6)[:10]:
+                print("  translator/prelude disagreement:", b)
+            print(f"INTERNAL-ERROR property={prop} (the Python->Lean translation misrenders the code; no verdict)")
+            return 2
+    # --- T6 end
+
     # ---- 3. correspondence + oracle
     if args.replay:
         rp = json.load(open(args.replay))
